@@ -561,8 +561,9 @@ def F03(p):
                                 if "forward-decl" in y.tags and y.t == t:
                                     y.t = new
                         return i
-                    fwd = any("forward-decl" in y.tags and y.t == x.t for ln2 in p.lines for y in ln2.lex)
-                    yield "funchead" + (":forward-declared" if fwd else ""), ap
+                    fwd = [j for j, ln2 in enumerate(p.lines) if any("forward-decl" in y.tags and y.t == x.t for y in ln2.lex)]
+                    between = fwd and any(p.lines[j].kind in ("proto", "funchead") for j in range(fwd[0] + 1, i))
+                    yield "funchead" + (":forward-declared" + (":others-between" if between else "") if fwd else ""), ap
 
 
 @op("F04", "SPACE_BEFORE_FUNC", ("c",))
